@@ -54,6 +54,8 @@ def make_run(prop, verif_seed, idx, tier):
     parts = m.generate(prop, rng, tier)
     run = {'property': prop, 'machine': m.MACHINE, 'seed': verif_seed, 'run_index': idx}
     run.update(parts)
+    if hasattr(m, 'vary'):
+        m.vary(run, rng)
     return run
 
 
@@ -71,12 +73,18 @@ def exec_run(world, run, prop=None):
     m = importlib.import_module('simworld.machines.' + MACHINES[prop])
     old = signal.signal(signal.SIGALRM, _alarm)
     signal.setitimer(signal.ITIMER_REAL, RUN_TIMEOUT_S)
+    crash = None
     try:
+        world.reset_state()
         res = m.execute(world, run, prop)
         timeout = False
     except RunTimeout:
         res = None
         timeout = True
+    except Exception as e:      # a crash of the harness (or an exception the machine did not classify)
+        import traceback
+        res, timeout = None, False
+        crash = traceback.format_exc()[-1500:]
     finally:
         signal.setitimer(signal.ITIMER_REAL, 0)
         signal.signal(signal.SIGALRM, old)
@@ -86,6 +94,9 @@ def exec_run(world, run, prop=None):
                                 'detail': {'why': 'run exceeded %.0f s wall for sub-millisecond work' % RUN_TIMEOUT_S},
                                 'facts': {}}],
                 'digest': 'timeout', 'compared': 0, 'fired': {}, 'probes': {}, 'timeout': True, 'nops': len(run['ops'])}
+    if crash is not None:
+        return {'violations': [], 'digest': 'crash', 'compared': 0, 'fired': {}, 'probes': {}, 'timeout': False,
+                'nops': len(run['ops']), 'crash': crash}
     rec, fired = res
     return {'violations': rec.violations, 'digest': core.digest([rec.trace, [(v['oracle'], v['step']) for v in rec.violations]]),
             'compared': rec.compared, 'fired': fired, 'probes': rec.probes, 'timeout': False,
@@ -144,7 +155,7 @@ def _work(args):
     m = machine_for(prop)
     out = {'runs': 0, 'ops': 0, 'compared': 0, 'fired': {}, 'probes': {}, 'sigs': set(),
            'violations': [], 'known': {}, 'digests': {}, 'samples': [], 'timeouts': 0, 'nviol': 0,
-           'range': [lo, lo]}
+           'range': [lo, lo], 'crashes': []}
     for idx in range(lo, hi):
         if time.time() > deadline:
             break
@@ -168,6 +179,8 @@ def _work(args):
                                    'n_ops': len(run['ops']), 'trace_digest': res['digest']})
         if res['timeout']:
             out['timeouts'] += 1
+        if res.get('crash'):
+            out['crashes'].append((idx, res['crash']))
         for v in res['violations']:
             f = match_finding(v, findings)
             if f is not None:
@@ -246,7 +259,7 @@ def shrink(world, run, oracle, findings, budget=1200):
 # replay
 # ----------------------------------------------------------------------
 def write_replay(run, violation, res_digest):
-    d = os.path.join(VERIF, 'replays')
+    d = os.environ.get('VERIF_REPLAY_DIR') or os.path.join(VERIF, 'replays')
     os.makedirs(d, exist_ok=True)
     body = dict(run)
     body['violation'] = violation
@@ -335,13 +348,16 @@ def check(prop, tier, verif_seed, jobs=None, runs=None, budget=None):
     ndig = 32 if tier == 'quick' else 256
     step = max(1, nruns // ndig)
     want_digests = set(range(0, nruns, step))
+    dump = os.environ.get('VERIF_DUMP_DIGESTS')
+    if dump:
+        want_digests = set(range(nruns))
     chunk = max(20, nruns // (jobs * 8))
     deadline = t_start + wall_cap
     tasks = [(prop, verif_seed, tier, lo, min(nruns, lo + chunk), want_digests, deadline)
              for lo in range(0, nruns, chunk)]
     agg = {'runs': 0, 'ops': 0, 'compared': 0, 'fired': {}, 'probes': {}, 'sigs': set(), 'violations': [],
            'known': {}, 'digests': {}, 'samples': [], 'timeouts': 0, 'nviol': 0, 'max_index': 0,
-           'reach': set()}
+           'reach': set(), 'crashes': []}
     ctx = multiprocessing.get_context('fork')
     try:
         with concurrent.futures.ProcessPoolExecutor(max_workers=jobs, mp_context=ctx) as ex:
@@ -364,6 +380,7 @@ def check(prop, tier, verif_seed, jobs=None, runs=None, budget=None):
                 if len(agg['samples']) < 3:
                     agg['samples'].extend(out['samples'])
                 agg['violations'].extend(out['violations'])
+                agg['crashes'].extend(out['crashes'][:2])
     except concurrent.futures.process.BrokenProcessPool as e:
         print("HARNESS-ERROR worker died: %r" % e)
         return 2
@@ -396,10 +413,17 @@ def check(prop, tier, verif_seed, jobs=None, runs=None, budget=None):
         else:
             harness_err = "HARNESS-ERROR replay %s did not reproduce in a fresh interpreter (rc=%d)\n%s" % (path, rc, outp[-800:])
 
+    if agg['crashes']:
+        harness_err = "HARNESS-ERROR %d run(s) raised inside the harness, e.g. run %d:\n%s" % (
+            len(agg['crashes']), agg['crashes'][0][0], agg['crashes'][0][1])
+
     # 4. determinism self-test on a sample, fresh interpreter, other hash seed, one process
     det_ok, det_n = True, 0
+    if dump:
+        with open(dump, 'w') as f:
+            json.dump({str(k): v for k, v in sorted(agg['digests'].items())}, f)
     if agg['digests']:
-        idxs = sorted(agg['digests'])
+        idxs = sorted(agg['digests'])[::max(1, len(agg['digests']) // ndig)] if dump else sorted(agg['digests'])
         env = dict(os.environ)
         env['PYTHONHASHSEED'] = '97'
         env['VERIF_SEED'] = str(verif_seed)
@@ -462,8 +486,10 @@ def check(prop, tier, verif_seed, jobs=None, runs=None, budget=None):
         'wall_s': round(wall, 2),
         'violations': len(violations_out),
     }
-    os.makedirs(os.path.join(VERIF, 'evidence'), exist_ok=True)
-    with open(os.path.join(VERIF, 'evidence', prop + '.json'), 'w') as f:
+    # self-tests that aim the checks at scratch trees redirect their evidence away from /verif/evidence
+    ev_dir = os.environ.get('VERIF_EVIDENCE_DIR') or os.path.join(VERIF, 'evidence')
+    os.makedirs(ev_dir, exist_ok=True)
+    with open(os.path.join(ev_dir, prop + '.json'), 'w') as f:
         json.dump(evidence, f, indent=1, sort_keys=True)
 
     for line in known_lines:
